@@ -532,6 +532,26 @@ def main():
     # ---- extra runtime obligations (supporting validation, not proof)
     extras_info = {}
     for ex in P.get("extras", []):
+        if ex == "iavlrace":
+            # an IAVL iterator closed before it is exhausted must not leave a goroutine walking the tree (C01: the
+            # background walk races with the writes and the commit that follow and can kill the process)
+            rb = run(["go", "build", "-race", "-o", "bin/kvrace", "./cmd/kvrace"], cwd=HARN, timeout=1800,
+                     env=dict(ENV, CGO_ENABLED="1"))
+            if rb.returncode != 0:
+                rp = write_replay(pid, "iavlrace-build", {"property": pid, "kind": "build", "log": rb.stdout[-3000:]})
+                violations.append({"kind": "proof", "signature": "iavlrace-build", "replay": rp, "found_input": False,
+                                   "what": "the race-detector build of the IAVL iterator run failed"})
+                continue
+            rounds = 300 if tier == "quick" else 20000
+            rr = run([os.path.join(HARN, "bin", "kvrace"), "--scenario", "iavl-early-close", "--seed", str(seed), "--rounds", str(rounds)],
+                     env=dict(ENV, GORACE="halt_on_error=1 exitcode=66"), timeout=3000)
+            extras_info["iavlrace"] = {"rounds": rounds, "result": rr.stdout.strip()[-300:]}
+            if rr.returncode != 0:
+                rp = write_replay(pid, "C01_iavl-iterator-race", {"property": pid, "kind": "concurrency", "signature": "C01:iavl-iterator-race",
+                                  "rerun": "cd harness && CGO_ENABLED=1 go build -race -o bin/kvrace ./cmd/kvrace && GORACE=halt_on_error=1 bin/kvrace --scenario iavl-early-close --seed %d --rounds %d" % (seed, rounds),
+                                  "output": rr.stdout[-6000:]})
+                violations.append({"kind": "monitor", "signature": "C01:iavl-iterator-race", "replay": rp, "found_input": True,
+                                   "what": "an IAVL iterator closed early keeps reading the tree while the store is written and committed"})
         if ex == "kvrace":
             # C15's concurrency clause: several goroutines on one cachekv wrapper under the race detector, the history
             # of calls checked for linearizability against a plain map
